@@ -10,6 +10,7 @@ from dalimc.core.runner import new_result, add_violation, observe, sample
 from dalimc.spec import ref_codec as R
 
 ID = "C01"
+OPTIMISED_STRIDE = {"quick": 16, "thorough": 64}      # every k-th shard once more in an interpreter started with -O
 LEVEL = "exploration"
 ENGINE = "E1"
 TECHNIQUE = "exhaustive enumeration of frame spaces through the real from_frame vs a table-driven reference decoder; decode-order sequences enumerated exhaustively"
